@@ -1,4 +1,5 @@
 import BoolFn.Proofs.Oracle3
+import BoolFn.Proofs.Recipe
 import BoolFn.Proofs.Oracle
 import BoolFn.Proofs.Table
 import BoolFn.Bdd
